@@ -13,6 +13,7 @@ package main
 // Rules classify paths and compare the resulting decision table with an oracle.
 
 import (
+	"strconv"
 	"math/bits"
 	"fmt"
 	"go/constant"
@@ -1860,7 +1861,19 @@ func (it *interp) doCall(st *state, fr *frame, in *ssa.Call) bool {
 			}
 		symbolic:
 			e := &Expr{Op: b.Name(), Args: []AV{args[0]}, T: in.Type()}
-			if v, ok := it.valLookup(e.Key()); ok {
+			keys := []string{e.Key()}
+			// the length of a call result may be valued per constant string argument of the call:
+			// len(call:(http.Header).Values["Sec-WebSocket-Key"]) is only that header's line count
+			if ce, ok := args[0].(*Expr); ok && ce.Op == "call" {
+				if i := strings.Index(ce.Name, "@"); i >= 0 {
+					for _, a := range ce.Args {
+						if sv, ok := avStr(a); ok {
+							keys = append([]string{b.Name() + "(call:" + ce.Name[:i] + "[" + strconv.Quote(sv) + "])"}, keys...)
+						}
+					}
+				}
+			}
+			if v, ok := it.valLookup(keys...); ok {
 				fr.env[in] = v
 			} else {
 				fr.env[in] = e
@@ -2237,6 +2250,12 @@ func foldPure(ev *Event) AV {
 		return cBool(strings.Contains(a, b))
 	case "strings.EqualFold":
 		return cBool(strings.EqualFold(a, b))
+	case "strings.TrimPrefix":
+		return cStr(strings.TrimPrefix(a, b))
+	case "strings.TrimSuffix":
+		return cStr(strings.TrimSuffix(a, b))
+	case "strings.Trim":
+		return cStr(strings.Trim(a, b))
 	}
 	return nil
 }
